@@ -155,9 +155,12 @@ def unsupported_config(c):
             return True
         if m["kind"] == "collection" and m["w"]:
             return True
-        if len(root) < len(c.ctr_out) and c.ctr_out[:len(root)] == root:
-            return True
     return False
+
+
+def mount_above(c):
+    """a mount whose mount point is a proper prefix of the output path (shape of finding F17c)"""
+    return any(len(root) < len(c.ctr_out) and c.ctr_out[:len(root)] == root for root in c.mounts)
 
 
 # ----------------------------------------------------------------------------- the container's view (oracle)
@@ -293,11 +296,11 @@ class View:
         return loc + (cur,), through
 
     # --- the tree below the output path
-    def mounts_below(self, q, dest):
+    def mounts_below(self, q, dest, used=0, stack=()):
         c = self.c
         for root, m in sorted(c.mounts.items()):
             if len(root) > len(q) and root[:len(q)] == q and not self.copy_regular(m):
-                self.include(self.cwalk((), root)[0], dest + root[len(q):], below=False)
+                self.include(self.cwalk((), root)[0], dest + root[len(q):], below=False, used=used, stack=stack)
 
     def include(self, land, dest, below=True, used=0, stack=()):
         """the thing found at `land` appears in the output at `dest`"""
@@ -331,7 +334,7 @@ class View:
                     else:
                         self.files[d] = data
             if below:
-                self.mounts_below(q, dest)
+                self.mounts_below(q, dest, used, stack)
         elif k == "hostdir":
             q = land[1]
             if q in stack:
@@ -342,7 +345,7 @@ class View:
                 self.dirs.add(dest)
             self.view_dir(q, dest, used, stack + (q,))
             if below:
-                self.mounts_below(q, dest)
+                self.mounts_below(q, dest, used, stack + (q,))
         else:
             raise AssertionError(land)
 
@@ -487,6 +490,8 @@ def oracle(case, impl):
         return None if impl == "bad-op" else "malformed case line not rejected by the driver: " + impl[:100]
     if impl.startswith("harness-error"):
         return None        # the driver could not build the tree (ill-formed case line): not an output of Copy
+    if impl == "diverge":
+        return "links were followed without end (the plan grew beyond every bound until the watchdog stopped the copy)"
     if impl.startswith(("panic", "CRASH", "reload-error", "bad-op")):
         return "copy did not end with a manifest or an error: " + impl[:200]
     if unsupported_config(c):
@@ -542,7 +547,8 @@ def compare(case, impl, model):
 
 
 def finding_of(case, impl, why, model=None):
-    """Known findings F17a / F17b, matched by their witness shape only:
+    """Known findings, matched by their witness shape only. F17c: the copy does not end, a mount point lies above
+    the output path and the container's view has a link cycle. F17a / F17b:
       a  a followed link whose target is an absolute path that is not path-cleaned (a component "", "." or "..");
       b  a followed link whose target path passes through a symlinked directory (the container's resolution of the
          target meets a symbolic link before its last component).
@@ -555,7 +561,12 @@ def finding_of(case, impl, why, model=None):
     if not why:
         return None
     v = view_of(case)
-    if v is None or not v.irregular:
+    if v is None:
+        return None
+    if impl == "diverge":
+        # F17c: a mount above the output path and a link cycle through it (the container's view is infinite)
+        return "F17c" if mount_above(parse_case(case)) and v.cycle and (model is None or model == "diverge") else None
+    if not v.irregular:
         return None
     if impl.startswith("ok "):
         c = parse_case(case)
@@ -739,6 +750,10 @@ class Gen:
             self.mounts.append((root, "collection", flags, coll, mp))
         if r.random() < 0.06 and not self.profile.get("clean"):
             self.mounts.append(("/c17other", r.choice(["waz", "git_tree"]), "", None, ""))
+        if r.random() < self.profile.get("above", 0.03) and self.ctr_out.count("/") >= 2:
+            # a collection mounted above the output path (its mount point is the output path's parent)
+            ci = self.gen_coll()
+            self.mounts.append((self.ctr_out.rsplit("/", 1)[0], "collection", "", ci, ""))
         nsec = r.choice([0, 0, 1, 1, 2])
         files = [p for p, k in self.kinds.items() if k == "f"]
         for i in range(nsec):
